@@ -487,15 +487,6 @@ def sweep_oracle(ctx, impl, ops, host, raw, results):
             break
 
 
-def sig_requoted_literal(case, params):
-    """A literal template part / static prefix / sub-app prefix that _requote_path changes never matches."""
-    if case.get("kind") not in ("url_for_inverse", "chain_inverse"):
-        return False
-    if "template" in case:
-        return template_requoted(case["template"])
-    return needs_quote(case.get("ops", []))
-
-
 def _ambiguous(template):
     """some hole is followed, inside its segment, by more text (literal or another hole)"""
     return re.search(r"\}[^/]", _HOLE.sub(lambda m: "{" + "h" + "}", template)) is not None
@@ -504,8 +495,7 @@ def _ambiguous(template):
 def sig_ambiguous_holes(case, params):
     """The produced URL is genuinely ambiguous: it resolves to other values that produce the very same URL
     (a hole is followed inside its segment by more text)."""
-    if not (case.get("kind") == "url_for_inverse" and "template" in case and _ambiguous(case["template"])
-            and not template_requoted(case["template"])):
+    if not (case.get("kind") == "url_for_inverse" and "template" in case and _ambiguous(case["template"])):
         return False
     from aiohttp.web_urldispatcher import DynamicResource
     from yarl import URL
@@ -518,28 +508,8 @@ def sig_ambiguous_holes(case, params):
         return False
 
 
-def sig_subapp_capture(case, params):
-    """The failing answer was produced by a prefixed sub-application lying on the path (its own 404/405 is final)."""
-    if case.get("kind") not in ("allow_incomplete", "404_although_path_matches"):
-        return False
-    from yarl import URL
-    ps = URL.build(path=case["path"], encoded=True).path_safe
-    if not prefix_on_path(case["ops"], ps):
-        return False
-    if case["kind"] == "allow_incomplete":       # only methods are missing, none is wrongly listed
-        return set(case.get("allowed", [])) <= set(case.get("served", []))
-    return True
-
-
-def sig_nested_domain(case, params):
-    return case.get("kind") == "build_error" and case.get("error") == "EKey" and dom_in_sub(case.get("ops", []))
-
-
 SIGNATURES = {
-    "requoted_literal": sig_requoted_literal,
     "ambiguous_holes": sig_ambiguous_holes,
-    "subapp_capture": sig_subapp_capture,
-    "nested_domain_keyerror": sig_nested_domain,
 }
 
 
@@ -618,7 +588,7 @@ def suite_tables(ctx, exe, tmpdir):
     tables = []
     for i in range(ntab):
         ids = Ids()
-        ops = gen_ops(rng, ids, allow_q=(rng.random() < 0.06))
+        ops = gen_ops(rng, ids, allow_q=(rng.random() < 0.15))
         tables.append(ops)
         # registration orders: shuffles of the same operations
         if len(ops) > 1:
@@ -817,26 +787,31 @@ def suite_chains(ctx, exe, tmpdir):
 
 def suite_laws(ctx, exe):
     import posixpath
-    from aiohttp.web_urldispatcher import _quote_path, _requote_path, _unquote_path_safe
+    from aiohttp.web_urldispatcher import _quote_path, _requote_path, _unquote_path_safe, _path_safe
     rng = ctx.rng
     strs = [chr(i) for i in range(0, 128)] + ["é", "\u20ac", "\U0001F600", "a%2Fb%25%2f%252F", "%", "%%", "%2", "a b%20"]
-    alpha = "ab1/%2F5 {}é-._~:@+?#"
+    strs += ["%%%02X" % b for b in range(256)] + ["%c3%a9", "%C3%41", "%E2%82%AC", "%E2%82", "%E2%82/%AC", "%ED%A0%80", "%C0%AF", "%F0%9F%98%80",
+             "%F4%90%80%80", "%2b+%2B", "/a%20b/%7Bx%7D", "%E2%82%C3%A9", "%80%C3%A9", "%e2%82%ac%", "%C3%A9%4", "%2541", "%252F%25"]
+    alpha = "ab1/%2F5 {}é-._~:@+?#CE38A9"
     for _ in range(400 if ctx.quick else 8000):
         strs.append("".join(rng.choice(alpha) for _ in range(rng.randint(0, 8))))
     ans = fw.run_model(exe, ["QUOTE " + c(s) for s in strs])
     ran = 0
     for s, a in zip(strs, ans):
-        q, r, u = a.split(" ")
+        q, r, u, d = a.split(" ")
         try:
             iq, ir = _quote_path(s), _requote_path(s)
         except ValueError:
             iq = ir = None
         iu = _unquote_path_safe(s)
+        idec = _path_safe(s)
         ran += 1
         ctx.case(("quote", s), nontrivial=True)
-        mo = (None if q == "ERR" else unc(q), None if r == "ERR" else unc(r), unc(u))
-        if mo != (iq, ir, iu):
-            ctx.disagreement("quoting_laws", {"s": s}, list(mo), [iq, ir, iu])
+        mo = (None if q == "ERR" else unc(q), None if r == "ERR" else unc(r), unc(u), unc(d))
+        if mo != (iq, ir, iu, idec):
+            ctx.disagreement("quoting_laws", {"s": s}, list(mo), [iq, ir, iu, idec])
+        if _path_safe(idec) != idec:      # law used by the theorems: path_safe output is a fixed point
+            ctx.disagreement("quoting_laws", {"s": s, "law": "path_safe idempotent"}, idec, _path_safe(idec))
     paths = ["", "/", "//", "///a", "//a/../..", "/a/./b//c/", "a/../..", "/..", "/a/b/../../.."]
     for _ in range(300 if ctx.quick else 5000):
         paths.append("".join(rng.choice(["/", "/", "a", "b", ".", "..", "ab"]) for _ in range(rng.randint(0, 9))))
